@@ -22,6 +22,8 @@ type GoCase struct {
 	Fam   string
 	Opts  []gotype.FoldOption
 	UOpts []gotype.UnfoldOption
+	// Custom models the folders registered through Opts (model.CustomFolders is set to it while the case is judged)
+	Custom map[reflect.Type]func(ptr reflect.Value) model.Value
 }
 
 func (c *GoCase) Sample() interface{} {
@@ -148,10 +150,71 @@ func foldSeedCustom(c *SeedCustom, v structform.ExtVisitor) error {
 }
 
 type seed struct {
-	name string
-	vals []interface{}
-	opts []gotype.FoldOption
+	name   string
+	vals   []interface{}
+	opts   []gotype.FoldOption
+	custom map[reflect.Type]func(ptr reflect.Value) model.Value
 }
+
+// folders registered for a named primitive type and for built-in unnamed types
+type seedLevel uint8
+
+func foldSeedLevel(l *seedLevel, v structform.ExtVisitor) error {
+	if l == nil {
+		return v.OnNil() // a nil pointer is handed to the registered folder as it is
+	}
+	return v.OnString(fmt.Sprintf("L%d", *l))
+}
+func foldSeedFloat(f *float64, v structform.ExtVisitor) error {
+	if f == nil {
+		return v.OnNil()
+	}
+	return v.OnString(fmt.Sprintf("F%v", *f))
+}
+func foldSeedBytes(b *[]byte, v structform.ExtVisitor) error {
+	if b == nil {
+		return v.OnNil()
+	}
+	return v.OnString(fmt.Sprintf("B%x", *b))
+}
+
+var seedBuiltinCustom = map[reflect.Type]func(ptr reflect.Value) model.Value{
+	reflect.TypeOf(seedLevel(0)): func(p reflect.Value) model.Value {
+		if p.IsNil() {
+			return model.NullV()
+		}
+		return model.StrV(fmt.Sprintf("L%d", p.Elem().Uint()))
+	},
+	reflect.TypeOf(float64(0)): func(p reflect.Value) model.Value {
+		if p.IsNil() {
+			return model.NullV()
+		}
+		return model.StrV(fmt.Sprintf("F%v", p.Elem().Float()))
+	},
+	reflect.TypeOf([]byte(nil)): func(p reflect.Value) model.Value {
+		if p.IsNil() {
+			return model.NullV()
+		}
+		return model.StrV(fmt.Sprintf("B%x", p.Elem().Bytes()))
+	},
+}
+
+func seedBuiltinValues() []interface{} {
+	f := 2.5
+	l := seedLevel(4)
+	return []interface{}{seedLevel(1), []seedLevel{1, 2}, [2]seedLevel{1, 2}, map[string]seedLevel{"k": 3}, &l, struct{ L seedLevel }{5}, struct{ L []seedLevel }{[]seedLevel{6}}, []interface{}{seedLevel(7)},
+		1.5, []float64{1.5, -2}, [2]float64{1, 2}, map[string]float64{"k": 1.5}, &f, (*float64)(nil), struct{ F float64 }{3.5}, []interface{}{1.5, []float64{4}}, map[string]interface{}{"k": 1.5}, struct{ I interface{} }{1.5},
+		struct {
+			A int
+			M map[string]float64 `struct:",inline"`
+		}{1, map[string]float64{"m": 0.5}},
+		map[string][]float64{"k": {6}}, &[]float64{7}, struct{ F []float64 }{[]float64{8}}, struct{ F map[string]float64 }{map[string]float64{"k": 9}},
+		[]byte{1, 2}, struct{ B []byte }{[]byte{3}}, []interface{}{[]byte{4}}, [][]byte{{5}}, map[string][]byte{"k": {6}}, struct{ P *float64 }{&f}, struct{ P *seedLevel }{&l},
+		struct {
+			F float64 `struct:",omitempty"`
+		}{0}, float32(1.5), []float32{1.5}, []int{1}}
+}
+
 
 func rec(n int) *SeedRec {
 	var r *SeedRec
@@ -164,46 +227,47 @@ func rec(n int) *SeedRec {
 func seeds() []seed {
 	i3 := 3
 	return []seed{
-		{"SeedMyInt", []interface{}{SeedMyInt(0), SeedMyInt(-7)}, nil},
-		{"SeedMyStr", []interface{}{SeedMyStr(""), SeedMyStr("x")}, nil},
-		{"SeedMyMap", []interface{}{SeedMyMap(nil), SeedMyMap{"a": 1}}, nil},
-		{"SeedMySlice", []interface{}{SeedMySlice(nil), SeedMySlice{"a", "b"}}, nil},
-		{"SeedMyArr", []interface{}{SeedMyArr{1, 2}}, nil},
-		{"SeedFolderV", []interface{}{SeedFolderV{1}, &SeedFolderV{2}}, nil},
-		{"SeedFolderP", []interface{}{SeedFolderP{1}, &SeedFolderP{2}}, nil},
-		{"SeedZeroV", []interface{}{SeedZeroV{}, SeedZeroV{1}}, nil},
-		{"SeedRec", []interface{}{SeedRec{}, *rec(3), rec(2)}, nil},
-		{"SeedRecSlice", []interface{}{SeedRecSlice{}, SeedRecSlice{Kids: []SeedRecSlice{{}, {Kids: []SeedRecSlice{{}}}}}}, nil},
+		{"SeedMyInt", []interface{}{SeedMyInt(0), SeedMyInt(-7)}, nil, nil},
+		{"SeedMyStr", []interface{}{SeedMyStr(""), SeedMyStr("x")}, nil, nil},
+		{"SeedMyMap", []interface{}{SeedMyMap(nil), SeedMyMap{"a": 1}}, nil, nil},
+		{"SeedMySlice", []interface{}{SeedMySlice(nil), SeedMySlice{"a", "b"}}, nil, nil},
+		{"SeedMyArr", []interface{}{SeedMyArr{1, 2}}, nil, nil},
+		{"SeedFolderV", []interface{}{SeedFolderV{1}, &SeedFolderV{2}}, nil, nil},
+		{"SeedFolderP", []interface{}{SeedFolderP{1}, &SeedFolderP{2}}, nil, nil},
+		{"SeedZeroV", []interface{}{SeedZeroV{}, SeedZeroV{1}}, nil, nil},
+		{"SeedRec", []interface{}{SeedRec{}, *rec(3), rec(2)}, nil, nil},
+		{"SeedRecSlice", []interface{}{SeedRecSlice{}, SeedRecSlice{Kids: []SeedRecSlice{{}, {Kids: []SeedRecSlice{{}}}}}}, nil, nil},
 		{"SeedNode", []interface{}{
 			SeedNode{Name: "a", W: 1, Kids: map[string]SeedNode{"b": {Name: "b", W: 2, Kids: map[string]SeedNode{"c": {Name: "c", W: 3, Kids: map[string]SeedNode{"d": {Name: "d", W: 4}}}}}}},
 			map[string]SeedNode{"x": {Name: "x", W: 9, Kids: map[string]SeedNode{"y": {Name: "y", W: 8}}}},
 			SeedNodeI{After: "a1", Tail: 1, M: map[string]interface{}{"k": SeedNodeI{After: "a2", Tail: 2, M: map[string]interface{}{"k": SeedNodeI{After: "a3", Tail: 3}}}}},
 			SeedNodeI{After: "o", Tail: 1, L: []SeedNodeI{{After: "i1", Tail: 2, L: []SeedNodeI{{After: "i2", Tail: 3}}}, {After: "i3", Tail: 4}}},
 			[]interface{}{map[string]interface{}{"p": []interface{}{map[string]interface{}{"q": 1}, "after-inner"}}, "after-outer"},
-		}, nil},
-		{"SeedWithUnexported", []interface{}{SeedWithUnexported{Pub: 1, priv: 2, seedEmbedded: seedEmbedded{3}, Named: 4}}, nil},
+		}, nil, nil},
+		{"SeedWithUnexported", []interface{}{SeedWithUnexported{Pub: 1, priv: 2, seedEmbedded: seedEmbedded{3}, Named: 4}}, nil, nil},
 		{"SeedHolder", []interface{}{SeedHolder{}, SeedHolder{FV: SeedFolderV{1}, FP: SeedFolderP{2}, PFV: &SeedFolderV{3}, ZV: SeedZeroV{1}, ZP: SeedZeroP{1}, PZV: &SeedZeroV{0}, I: SeedZeroV{0}},
-			SeedHolder{PZV: &SeedZeroV{5}, I: &SeedZeroP{0}}, SeedHolder{I: SeedZeroV{2}}, SeedHolder{I: &i3}, SeedHolder{I: ""}, SeedHolder{I: []int{}}}, nil},
-		{"SeedInlineFolderV", []interface{}{SeedInlineFolderV{A: 1, F: SeedFolderV{2}}}, nil},
-		{"SeedInlineFolderP", []interface{}{SeedInlineFolderP{F: &SeedFolderP{2}, B: 1}, SeedInlineFolderP{B: 1}}, nil},
+			SeedHolder{PZV: &SeedZeroV{5}, I: &SeedZeroP{0}}, SeedHolder{I: SeedZeroV{2}}, SeedHolder{I: &i3}, SeedHolder{I: ""}, SeedHolder{I: []int{}}}, nil, nil},
+		{"SeedInlineFolderV", []interface{}{SeedInlineFolderV{A: 1, F: SeedFolderV{2}}}, nil, nil},
+		{"SeedInlineFolderP", []interface{}{SeedInlineFolderP{F: &SeedFolderP{2}, B: 1}, SeedInlineFolderP{B: 1}}, nil, nil},
 		{"SeedInlineIfc", []interface{}{SeedInlineIfc{B: "b"}, SeedInlineIfc{I: map[string]interface{}{"k": 1}, B: "b"}, SeedInlineIfc{I: seedInner2{X: 1}, B: "b"}, SeedInlineIfc{I: &seedInner2{X: 2, M: map[string]bool{"t": true}}, B: "b"},
-			SeedInlineIfc{I: 5, B: "b"}, SeedInlineIfc{I: SeedFolderV{4}, B: "b"}}, nil},
-		{"SeedInlinePtr", []interface{}{SeedInlinePtr{Q: 1}, SeedInlinePtr{P: &seedInner2{X: 1, M: map[string]bool{"m": false}}, Q: 2}}, nil},
+			SeedInlineIfc{I: 5, B: "b"}, SeedInlineIfc{I: SeedFolderV{4}, B: "b"}}, nil, nil},
+		{"SeedInlinePtr", []interface{}{SeedInlinePtr{Q: 1}, SeedInlinePtr{P: &seedInner2{X: 1, M: map[string]bool{"m": false}}, Q: 2}}, nil, nil},
 		{"SeedCustomHolder", []interface{}{SeedCustomHolder{C: SeedCustom{1}, P: &SeedCustom{2}, In: SeedCustom{3}}, SeedCustomHolder{}, SeedCustom{4}, &SeedCustom{5}, []SeedCustom{{6}}, map[string]*SeedCustom{"k": {7}}},
-			[]gotype.FoldOption{gotype.Folders(foldSeedCustom)}},
-		{"SeedBad1", []interface{}{SeedBad1{}, SeedBad1{C: make(chan int)}}, nil},
-		{"SeedBad2", []interface{}{SeedBad2{}}, nil},
-		{"SeedBad3", []interface{}{SeedBad3{C: 1i}}, nil},
-		{"SeedBad4", []interface{}{SeedBad4{}, SeedBad4{M: map[int]string{1: "a"}}, map[int]string{1: "a"}}, nil},
-		{"SeedBad5", []interface{}{SeedBad5{A: 1}}, nil},
-		{"SeedArrField", []interface{}{SeedArrField{A: [3]int8{1, 2, 3}}, [2]string{"a", "b"}, &[1]int{1}}, nil},
-		{"SeedNamedFields", []interface{}{SeedNamedFields{}, SeedNamedFields{M: SeedMyMap{"a": 1}, S: SeedMySlice{"x"}, I: seedImpl{2}, N: "n"}, SeedNamedFields{M: SeedMyMap{}, S: SeedMySlice{}}}, nil},
+			[]gotype.FoldOption{gotype.Folders(foldSeedCustom)}, nil},
+		{name: "SeedBuiltinFolders", vals: seedBuiltinValues(), opts: []gotype.FoldOption{gotype.Folders(foldSeedLevel, foldSeedFloat, foldSeedBytes)}, custom: seedBuiltinCustom},
+		{"SeedBad1", []interface{}{SeedBad1{}, SeedBad1{C: make(chan int)}}, nil, nil},
+		{"SeedBad2", []interface{}{SeedBad2{}}, nil, nil},
+		{"SeedBad3", []interface{}{SeedBad3{C: 1i}}, nil, nil},
+		{"SeedBad4", []interface{}{SeedBad4{}, SeedBad4{M: map[int]string{1: "a"}}, map[int]string{1: "a"}}, nil, nil},
+		{"SeedBad5", []interface{}{SeedBad5{A: 1}}, nil, nil},
+		{"SeedArrField", []interface{}{SeedArrField{A: [3]int8{1, 2, 3}}, [2]string{"a", "b"}, &[1]int{1}}, nil, nil},
+		{"SeedNamedFields", []interface{}{SeedNamedFields{}, SeedNamedFields{M: SeedMyMap{"a": 1}, S: SeedMySlice{"x"}, I: seedImpl{2}, N: "n"}, SeedNamedFields{M: SeedMyMap{}, S: SeedMySlice{}}}, nil, nil},
 		{"SeedTags", []interface{}{gen.SeedTags{"a", "b"}, gen.SeedTags(nil), []gen.SeedTags{{"x"}, nil}, map[string]gen.SeedTags{"k": {"y"}}, struct{ T gen.SeedTags }{gen.SeedTags{"a", "b"}},
-			[]interface{}{gen.SeedTags{"i"}}, &gen.SeedCounts{"a": 1, "b": 2}, gen.SeedCounts{"a": 3}, struct{ C gen.SeedCounts }{gen.SeedCounts{"a": 4}}, []gen.SeedCounts{{"a": 5}}, map[string]interface{}{"k": gen.SeedCounts{"a": 6}}}, nil},
+			[]interface{}{gen.SeedTags{"i"}}, &gen.SeedCounts{"a": 1, "b": 2}, gen.SeedCounts{"a": 3}, struct{ C gen.SeedCounts }{gen.SeedCounts{"a": 4}}, []gen.SeedCounts{{"a": 5}}, map[string]interface{}{"k": gen.SeedCounts{"a": 6}}}, nil, nil},
 		{"deep", []interface{}{deepGeneric(5, 0), deepGeneric(6, 0), deepGeneric(9, 0), deepGeneric(5, 1), deepGeneric(6, 1), deepGeneric(10, 1), deepGeneric(6, 2), deepGeneric(7, 2), deepGeneric(17, 2),
-			deepTyped(5), deepTyped(6), deepTyped(9), struct{ I interface{} }{deepGeneric(6, 0)}, []interface{}{deepGeneric(5, 0), deepGeneric(5, 1)}}, nil},
+			deepTyped(5), deepTyped(6), deepTyped(9), struct{ I interface{} }{deepGeneric(6, 0)}, []interface{}{deepGeneric(5, 0), deepGeneric(5, 1)}}, nil, nil},
 		{"misc", []interface{}{nil, true, "s", 1.5, float32(0.1), uint64(1<<64 - 1), []interface{}{nil, 1, "a", []interface{}{}}, map[string]interface{}{"a": map[string]interface{}{"b": []int{1}}},
-			[]byte{1, 2}, []uint16{1, 65535}, map[string]float32{"f": 0.5}, new(int), (*int)(nil), new(interface{}), [][]string{{"a"}, nil}, map[string][]interface{}{"k": {1}}, uintptr(5), make(chan int), func() {}}, nil},
+			[]byte{1, 2}, []uint16{1, 65535}, map[string]float32{"f": 0.5}, new(int), (*int)(nil), new(interface{}), [][]string{{"a"}, nil}, map[string][]interface{}{"k": {1}}, uintptr(5), make(chan int), func() {}}, nil, nil},
 	}
 }
 
@@ -317,7 +381,7 @@ func goFamilies(tier string, run func(x *engine.Exec, c *GoCase)) []engine.Famil
 				v = reflect.New(t).Elem()
 				v.Set(reflect.ValueOf(val))
 			}
-			run(x, &GoCase{T: t, V: v, Desc: fmt.Sprintf("%s:%v", s.name, t), Class: "seed:" + s.name, Fam: "seeds", Opts: s.opts})
+			run(x, &GoCase{T: t, V: v, Desc: fmt.Sprintf("%s:%v", s.name, t), Class: "seed:" + s.name, Fam: "seeds", Opts: s.opts, Custom: s.custom})
 		}},
 		{Name: "struct-wide", Arity: []int{25}, Body: func(x *engine.Exec) {
 			// field-count thresholds: 0..24 fields (small-struct fast paths, table sizes), three tag layouts, two value patterns
